@@ -63,6 +63,10 @@ func cmdDump(args []string) int {
 
 type propConfig struct {
 	Packages []string `json:"packages"`
+	Sweep    string   `json:"sweep,omitempty"` // zero-annotation sweep to add (mechanism-frames | panic-freedom)
+	Roots    []string `json:"roots,omitempty"` // panic-freedom: substrings of function keys that are entry points
+	Exclude  []string `json:"exclude,omitempty"`
+	Bounded  []boundedCheck `json:"bounded,omitempty"` // bounded stand-ins run on every check
 }
 
 func cmdCheck(args []string) int {
@@ -84,13 +88,14 @@ func cmdCheck(args []string) int {
 		return 2
 	}
 	patterns := []string{"./..."}
+	var pc propConfig
+	if b, err := os.ReadFile(filepath.Join(*verif, "contracts", "props", *prop+".json")); err == nil {
+		_ = json.Unmarshal(b, &pc)
+	}
 	if *pkgs != "" {
 		patterns = strings.Fields(*pkgs)
-	} else if b, err := os.ReadFile(filepath.Join(*verif, "contracts", "props", *prop+".json")); err == nil {
-		var pc propConfig
-		if json.Unmarshal(b, &pc) == nil && len(pc.Packages) > 0 {
-			patterns = pc.Packages
-		}
+	} else if len(pc.Packages) > 0 {
+		patterns = pc.Packages
 	}
 	w, err := LoadWorld(*repo, patterns, filepath.Join(*verif, "specs"))
 	if err != nil {
@@ -148,6 +153,38 @@ func cmdCheck(args []string) int {
 			cts = append(cts, impl)
 		}
 	}
+	if pc.Sweep == "mechanism-frames" {
+		have := map[string]bool{}
+		for _, c := range cts {
+			have[c.Key] = true
+		}
+		for _, c := range w.mechanismCone(*prop) {
+			if have[c.Key] || (*only != "" && !strings.Contains(c.Key, *only)) {
+				continue
+			}
+			cts = append(cts, c)
+		}
+	}
+	if pc.Sweep == "panic-freedom" {
+		have := map[string]bool{}
+		for _, c := range cts {
+			have[c.Key] = true
+		}
+		excl := func(path string) bool {
+			for _, x := range append([]string{"/mocks", "/testsupport"}, pc.Exclude...) {
+				if strings.Contains(path, x) {
+					return true
+				}
+			}
+			return false
+		}
+		for _, c := range w.coneContracts(w.rootsByPattern(pc.Roots), excl, *prop, func(c *Contract) { c.Safety = true; c.NoNilChecks = true }) {
+			if have[c.Key] || (*only != "" && !strings.Contains(c.Key, *only)) {
+				continue
+			}
+			cts = append(cts, c)
+		}
+	}
 	results := make([]*FuncResult, len(cts))
 	var wg sync.WaitGroup
 	var mu sync.Mutex
@@ -189,8 +226,51 @@ func cmdCheck(args []string) int {
 	if *tier == "thorough" {
 		timeout = 60
 	}
-	verdicts := SolveAll(obs, filepath.Join(outDir, "smt"), timeout, *tier == "thorough", 6)
+	// quick tier: only claimed obligations decide the verdict, so only they are attempted
+	// (-noclaims / -write-claims / thorough attempt everything)
+	claims := loadClaims(filepath.Join(*verif, "contracts", "claims", *prop+".txt"))
+	var toSolve []*Obligation
+	skipped := map[*Obligation]bool{}
+	for _, o := range obs {
+		if *noClaims || *writeClaims || *tier == "thorough" || claims.Has(o.Name) || isKnownName(*verif, *prop, o.Name) {
+			toSolve = append(toSolve, o)
+		} else {
+			skipped[o] = true
+		}
+	}
+	var extra *ExtraResult
+	extraDone := make(chan struct{})
+	go func() {
+		defer close(extraDone)
+		if *only == "" {
+			extra = runBounded(&Report{Prop: *prop, Verif: *verif, Repo: *repo, OutDir: outDir}, *prop, pc.Bounded)
+		}
+	}()
+	solved := SolveAll(toSolve, filepath.Join(outDir, "smt"), timeout, *tier == "thorough", 6)
+	byOb := map[*Obligation]*Verdict{}
+	for _, v := range solved {
+		byOb[v.Ob] = v
+	}
+	verdicts := make([]*Verdict, 0, len(obs))
+	for _, o := range obs {
+		if v, ok := byOb[o]; ok {
+			verdicts = append(verdicts, v)
+		} else {
+			verdicts = append(verdicts, &Verdict{Ob: o, Status: "not-attempted"})
+		}
+	}
 	rep := &Report{Prop: *prop, Tier: *tier, Seed: seed, Verif: *verif, Repo: *repo, Results: results, Verdicts: verdicts,
 		LoadS: loadS, GenS: genS, T0: t0, Verbose: *verbose, NoClaims: *noClaims, WriteClaims: *writeClaims, World: w, EngineErr: engineErr, OutDir: outDir}
+	<-extraDone
+	rep.Extra = extra
 	return rep.Finish()
+}
+
+func isKnownName(verif, prop, name string) bool {
+	for _, k := range loadKnown(verif).Findings {
+		if k.Property == prop && k.Obligation == name && k.Status == "open" {
+			return true
+		}
+	}
+	return false
 }
